@@ -458,7 +458,9 @@ def s_bath(draw, tier):
     return {"d": d, "o": draw(st.lists(st.sampled_from([-1.0, -0.5, 0.25, 0.5, 1.0]), min_size=d, max_size=d)),
             "E": [draw(gens.grid(-1, 1, 4)) for _ in range(d)], "rho0": draw(gens.dm_spec(d)),
             "T": draw(st.sampled_from([0.0, 0.4, 1.0])), "alpha": draw(st.sampled_from([0.05, 0.15])),
-            "N": draw(st.integers(4, 8)), "w1": draw(st.sampled_from([0.9, 1.7, 2.5])),
+            # mostly short tensors; sometimes 10..16 steps (d = 2 then) and other time steps: the time axis of occupation()
+            "N": draw(st.integers(4, 8)) if (d == 3 or draw(st.integers(0, 3)) > 0) else draw(st.integers(10, 16)),
+            "dt": draw(st.sampled_from([0.1, 0.1, 0.05, 0.125])), "w1": draw(st.sampled_from([0.9, 1.7, 2.5])),
             "w2": draw(st.sampled_from([None, 0.9, 1.7])), "k1": draw(st.integers(1, 3)), "k2": draw(st.integers(3, 4)),
             "dagg": draw(st.sampled_from([[1, 0], [0, 1], [0, 0], [1, 1]])), "dw": draw(st.sampled_from([1.0, 0.5])),
             # further queries to the SAME object (repeated arguments with other band widths / pictures / flags)
@@ -473,7 +475,7 @@ def s_bath(draw, tier):
 def run_bath(case):
     import oqupy
     out = Outcome()
-    d, T, N, dt = case["d"], case["T"], case["N"], 0.1
+    d, T, N, dt = case["d"], case["T"], case["N"], case.get("dt", 0.1)
     o = np.array(case["o"], dtype=float)
     if o.max() == o.min():
         o[0] += 0.5
@@ -494,6 +496,10 @@ def run_bath(case):
     J = lambda w: 2 * case["alpha"] * w * math.exp(-w / 3.0)
     ts, occ = bd.occupation(w1, case["dw"], progress_type="silent")
     exact = nb(w1) + case["dw"] * J(w1) * O2 * 2 * (1 - np.cos(w1 * ts)) / w1 ** 2
+    if len(ts) != len(occ):
+        out.fail("bath/occupation-axis-length", f"{len(ts)} times for {len(occ)} occupation values (dt={dt}, {N} steps)")
+        return out
+    out.label("long-tensor" if N >= 10 else "short-tensor")
     out.check_close("bath/occupation-times", ts, dt * np.arange(N + 1), 1e-12)
     out.check_close("bath/occupation", occ, exact, 1e-7 * max(1.0, float(np.abs(exact).max())), "vs displaced oscillator")
     t1, t2 = case["k1"] * dt, case["k2"] * dt
